@@ -4,6 +4,7 @@ pub mod c02;
 pub mod c12;
 pub mod c19;
 pub mod c18;
+pub mod c11;
 
 pub fn run(prop: &str, rng: &mut R, out: &mut Out, extra: &[String]) -> bool {
     let _ = extra;
@@ -13,6 +14,7 @@ pub fn run(prop: &str, rng: &mut R, out: &mut Out, extra: &[String]) -> bool {
         "C12" => c12::run(rng, out),
         "C19" => c19::run(rng, out),
         "C18" => c18::run(rng, out),
+        "C11" => c11::run(rng, out),
         _ => return false,
     }
     true
